@@ -10,6 +10,7 @@ mod halflock;
 mod regconc;
 mod channel;
 mod iterconc;
+mod entries;
 
 #[global_allocator]
 static GLOBAL: sched::CountingAlloc = sched::CountingAlloc;
@@ -25,6 +26,7 @@ fn main() {
         "regconc" => regconc::main(),
         "channel" => channel::main(),
         "iterconc" => iterconc::main(),
+        "entries" => entries::main(),
         "channel-table" => channel::table_main(),
         "channel-stress" => channel::stress_main(),
         _ => {
